@@ -116,7 +116,8 @@ ReflectorSound == \A c \in ForeignClasses : ForeignWant(c) = "panic" => PuttAsCo
 OtherType(t) == CASE t = "int8" -> "bool" [] t = "bool" -> "int8" [] t = "int16" -> "uint16" [] t = "uint16" -> "int16"
                   [] t = "int64" -> "float64" [] t = "float64" -> "int64" [] t = "*int" -> "int64" [] t = "string" -> "any"
                   [] t = "any" -> "string" [] t = "int32" -> "int16" [] t = "[]byte" -> "string" [] t = "[3]int8" -> "int8"
-                  [] t = "struct{}" -> "[0]int64" [] t = "[0]int64" -> "struct{}" [] OTHER -> "int8"
+                  [] t = "struct{}" -> "[0]int64" [] t = "[0]int64" -> "struct{}" [] t = "float32" -> "int32"
+                  [] t = "complex128" -> "string" [] OTHER -> "int8"
 \* a type that is *not* the entry's: same size where the palette has one; E <-> *E for embedded structs
 Mismatch(sh, x) == LET f == FieldAt(sh, x.pos) IN
   IF f.emb = "ptr" THEN f.ty ELSE IF f.emb = "val" THEN "*" \o f.ty ELSE OtherType(f.ty)
@@ -136,20 +137,29 @@ Requests(sh, l) ==
                    R("name", "T", ns, [i \in 1..n |-> IF i = n - 1 THEN Mismatch(sh, l[FirstKey(l, ns[i])]) ELSE tyOf(ns[i])])]
   IN single \o wrong \o bytype
      \o [n \in 1..8 |-> nary[n + 1]] \o [n \in 1..8 |-> naryT[n + 1]] \o [n \in 1..3 |-> few[n + 1]] \o [n \in 1..3 |-> onebad[n + 1]]
-     \o << R("name", "T", <<"zz">>, <<l[1].ty>>), R("type", "T", <<>>, <<"float64">>),
-           R("name", "T", <<keys[1], "zz">>, <<tyOf(keys[1]), "int8">>), R("type", "T", <<>>, <<types[1], "float64">>),
+     \o << R("name", "T", <<"zz">>, <<l[1].ty>>), R("type", "T", <<>>, <<"uintptr">>),
+           R("name", "T", <<keys[1], "zz">>, <<tyOf(keys[1]), "int8">>), R("type", "T", <<>>, <<types[1], "uintptr">>),
            R("name", "*T", <<keys[1]>>, <<tyOf(keys[1])>>), R("type", "*T", <<>>, <<types[1]>>),
            R("name", "*T", <<"zz">>, <<"int8">>) >>
 
 (* ------------------------------------------------------------------ abstract memory *)
 Guard == 8
 GuardVal == 9
-Bytes(sh) == (0 - Guard)..(SSize(sh) + Guard - 1)
+\* The modelled bytes: all of [-Guard, size + Guard) for ordinary structs.  For a container with a huge array only the
+\* bytes next to a *cut* are kept - a cut is the start or end of a cell, of an as-coded footprint, or of the struct.
+\* Every write starts and ends at a cut, so each stretch between two cuts is written entirely or not at all and is
+\* represented by the byte at its start.
+Cuts(sh) == LET cs == Cells(sh)  u == Unfold(sh) IN
+            {0, SSize(sh)} \cup {cs[c].off : c \in {c \in 1..Len(cs) : cs[c].own}} \cup {cs[c].off + cs[c].size : c \in {c \in 1..Len(cs) : cs[c].own}}
+            \cup {u[j].root + u[j].off : j \in 1..Len(u)} \cup {u[j].root + u[j].off + FSize(FieldAt(sh, u[j].pos)) : j \in 1..Len(u)}
+Bytes(sh) == IF SSize(sh) <= 4096 THEN (0 - Guard)..(SSize(sh) + Guard - 1)
+             ELSE ((0 - Guard)..(0 - 1)) \cup (SSize(sh)..(SSize(sh) + Guard - 1))
+                  \cup {b \in UNION {{c - 1, c, c + 1} : c \in Cuts(sh)} : b >= 0 /\ b < SSize(sh)}
 InitMem(sh) == [b \in Bytes(sh) |-> IF b < 0 \/ b >= SSize(sh) THEN GuardVal ELSE 0]
 \* I: the raw write / read of a footprint (bytes outside the modelled window are simply not recorded)
 PutBytes(mem, lo, hi, v) == [b \in DOMAIN mem |-> IF lo <= b /\ b < hi THEN v ELSE mem[b]]
 CellVal(mem, c) == IF c.size = 0 THEN 0
-                   ELSE LET x == mem[c.off] IN IF \A b \in c.off..(c.off + c.size - 1) : b \in DOMAIN mem /\ mem[b] = x THEN x % c.nv ELSE -1
+                   ELSE LET x == mem[c.off] IN IF \A b \in {b \in DOMAIN mem : c.off <= b /\ b < c.off + c.size} : mem[b] = x THEN x % c.nv ELSE -1
 \* the values of the own cells (cells behind a pointer are not in this memory: -2); cs = Cells(sh)
 CellVals(cs, mem) == [c \in 1..Len(cs) |-> IF cs[c].own THEN CellVal(mem, cs[c]) ELSE -2]
 GetBytes(cs, mem, lo, hi) ==      \* what the read returns, decoded cell by cell (non-empty cells fully inside the footprint)
